@@ -43,9 +43,17 @@ func (f *c13FlipFlag) String() string {
 }
 func (f *c13FlipFlag) Set(string) error { return nil }
 
+// one flag object reused for every call (as a program's flag variable is): its value is set anew before each use
+var c13Shared = &c13FlipFlag{}
+
 func realTruFormatFlag(f1, f2 string, kv []string) string {
 	return guard(func() string {
-		r, err := safehtml.TrustedResourceURLFormatFromFlag(&c13FlipFlag{first: f1, later: f2}, kvMap(kv))
+		fl := &c13FlipFlag{first: f1, later: f2}
+		if f1 == f2 {
+			c13Shared.first, c13Shared.later, c13Shared.reads = f1, f2, 0
+			fl = c13Shared
+		}
+		r, err := safehtml.TrustedResourceURLFormatFromFlag(fl, kvMap(kv))
 		if err != nil {
 			return "err"
 		}
@@ -216,6 +224,11 @@ func genC13(c *Ctx) {
 		c.emit("tru.format", append([]string{format}, kv...), r, nt, formatClass(format, r))
 		// the same through FromFlag with a flag whose value changes between reads: the result must be the one of a
 		// single read (the first)
+		if c.rng.Intn(3) == 0 {
+			// the same flag object, holding this format now (it held other formats in earlier calls)
+			rs := realTruFormatFlag(format, format, kv)
+			c.emit("tru.formatflag", append([]string{format, format}, kv...), rs, nt, "sameflag-"+formatClass(format, rs))
+		}
 		if c.rng.Intn(4) == 0 {
 			other := pick(c, []string{"javascript:alert(1)//%{a}", "http://evil.example/%{a}", "//evil.example/%{a}", "%{a}", format + "/../%{a}", "https://static.example.com/js/%{a}"})
 			if c.rng.Intn(2) == 0 {
@@ -353,6 +366,16 @@ func genC13(c *Ctx) {
 			if c.thorough {
 				for _, r := range corePieces {
 					bodies = append(bodies, p+q+r)
+				}
+			}
+		}
+	}
+	// a literal '%' or '%2' directly before a marker: the argument supplies the rest of an escape
+	for _, pre := range []string{"/scripts/v1/", "https://static.example.com/js/", "//h/"} {
+		for _, mid := range []string{".%%{a}/x.js", "%%{a}.%{b}/x.js", "%%{a}%%{b}/x.js", ".%2%{a}/x.js", "%2%{a}%2%{b}/", "%%{a}/%{b}"} {
+			for _, va := range []string{"2e", "2E", "e", "E", "2f", "2F", "5c", "2e%2e", ""} {
+				for _, vb := range []string{"2e", ".", "e", "x"} {
+					doFormat(pre+mid, map[string]string{"a": va, "b": vb})
 				}
 			}
 		}
